@@ -1124,6 +1124,8 @@ class Interp:
                 return FuncV(f, recv=base, name=f"{base.cls}.{attr}")
             return Sym(("attr", base.oid, attr))
         if isinstance(base, Sym) and base.tag and base.tag[0] == "g":
+            if base.tag[1] == "ast" and isinstance(getattr(ast, attr, None), type):
+                return ClassV(attr)
             return Sym(("g", f"{base.tag[1]}.{attr}"))
         if isinstance(base, ExcV):
             return Sym(("excattr", attr))
@@ -1380,6 +1382,9 @@ class Interp:
 
     def identity(self, l, r):
         concrete = (Const, NodeV, ListV, DictV, ObjV, FuncV, ClassV)
+        for a, b in ((l, r), (r, l)):
+            if isinstance(a, Const) and a.v is None and isinstance(b, Sym) and b.tag and b.tag[0] == "g":
+                return False  # an imported module attribute is not None
         if isinstance(l, Const) and isinstance(r, Const):
             if l.v is None or r.v is None or isinstance(l.v, bool) or isinstance(r.v, bool):
                 return l.v is r.v
@@ -1665,6 +1670,16 @@ class Interp:
                     return [(cfg, ListV([Const(i) for i in r]))]
             except Exception:  # noqa
                 pass
+        if fname in ("ord", "chr", "abs", "int", "float", "repr") and len(args) == 1 and isinstance(args[0], Const) and not kwargs:
+            try:
+                return [(cfg, Const({"ord": ord, "chr": chr, "abs": abs, "int": int, "float": float, "repr": repr}[fname](args[0].v)))]
+            except Exception:  # noqa
+                return None
+        if fname in ("copy.copy", "copy.deepcopy") and len(args) == 1:
+            v = args[0]
+            if isinstance(v, NodeV):
+                return [(cfg, NodeV(v.cls, {**v.fields, "$copy": TRUE}, v.path))]
+            return [(cfg, v)]
         if fname == "bool" and len(args) == 1:
             t = self.static_truth(args[0], cfg)
             if t is not None:
@@ -1737,11 +1752,11 @@ class Interp:
             if meth == "update" and len(args) == 1 and isinstance(args[0], ListV):
                 return rebind(ListV(base.items + args[0].items, base.kind))
         if isinstance(base, DictV):
-            if meth == "get" and args and isinstance(args[0], Const):
+            if meth == "get" and args and isinstance(args[0], (Const, ClassV)):
                 v = base.get(args[0])
                 if v is not None:
                     return [(cfg, v)]
-                if all(isinstance(k, Const) for k, _ in base.items):
+                if all(isinstance(k, (Const, ClassV)) for k, _ in base.items):
                     return [(cfg, args[1] if len(args) > 1 else NONE)]
             if meth == "items":
                 return [(cfg, ListV([ListV((k, v), "tuple") for k, v in base.items]))]
